@@ -128,6 +128,31 @@ class MethodsMixin:
             if hi is not None:
                 c = band(c, self.int_cmp("<=" if rv.f["closed"] else "<", x, hi))
             return c
+        if isinstance(rv, St) and rv.name == "File":
+            if name == "write_all":
+                # an interrupted write leaves a proper prefix of the text, which is not valid JSON
+                # (its length is arbitrary: zero bytes or more)
+                cut0 = ip.fresh("cut_at_zero", "bool") if getattr(ip, "fs_crash", None) is not None else True
+                self.fs_put(rv.f["path"], D(), partial_content=St("JsonText", {"v": none(), "empty": cut0}))
+                return ok(UNIT)
+            if name == "read_to_string":
+                dst = A()[0]
+                found, cur = self.map_lookup(self.fs_get(), rv.f["path"])
+                if cur is None:
+                    cur = St("JsonText", {"v": none(), "empty": True})
+                ip.write(dst.place, cur)
+                return ok(I(0, "usize"))
+            if name in ("sync_all", "flush", "sync_data"):
+                return ok(UNIT)
+        if isinstance(rv, St) and rv.name == "JsonText":
+            if name in ("as_bytes", "as_str", "clone", "to_string", "as_ref", "to_owned", "trim", "trim_start", "trim_end"):
+                return rv           # JSON text / its truncations start with '{' and end with a non-blank: trimming changes nothing
+            if name == "is_empty":
+                return rv.f["empty"]
+            if name == "len":
+                n = ip.fresh("jsonlen")
+                ip.assume(z3.And(n >= 0, n < 2**40, (n == 0) == zbool(rv.f["empty"])))
+                return I(n, "usize")
         if isinstance(rv, Tu) or isinstance(rv, St) or isinstance(rv, En):
             if name in CLONE_LIKE:
                 return rv
@@ -494,6 +519,12 @@ class MethodsMixin:
                 t = hint[0]
                 if t in ip.froms:
                     return ip.convert_into(rv, t)
+            return rv
+        if name == "join" and len(A()) == 1 and isinstance(ip.deref(A()[0]), S):
+            return self.path_join(rv, ip.deref(A()[0]))        # Path::join
+        if name == "exists":
+            return self.map_lookup(self.fs_get(), rv)[0]
+        if name in ("to_path_buf", "as_path", "display", "to_string_lossy", "as_os_str"):
             return rv
         if name == "push_str" or name == "push":
             o = D()
